@@ -146,7 +146,7 @@ def quartets(cfg):
     return qs
 
 
-XY = [0, 1, 127, 128, 129, 999, 1000, 1001, 9999, 10000, 999999, 1000000]
+XY = [0, 1, 100, 101, 127, 128, 129, 255, 256, 999, 1000, 1001, 1100, 1101, 9999, 10000, 10100, 999999, 1000000, 1000100]
 
 
 def random_universe(cfg, rng, n):
@@ -179,9 +179,9 @@ def random_universe(cfg, rng, n):
             elif m == 2:
                 a[3] = rng.choice(dims)
             elif m == 3:
-                a[0] = max(0, a[0] + rng.choice([-1, 1, 128, -128, 1000, -1000]))
+                a[0] = max(0, a[0] + rng.choice([-1, 1, 128, -128, 1000, -1000, 100, -100, 10, 10000, 127]))
             else:
-                a[1] = max(0, a[1] + rng.choice([-1, 1, 128, -128, 1000, -1000]))
+                a[1] = max(0, a[1] + rng.choice([-1, 1, 128, -128, 1000, -1000, 100, -100, 10, 10000, 127]))
         else:
             x, y = rng.choice(base_xy) if rng.random() < 0.5 else (rng.choice(XY), rng.choice(XY))
             a = [x, y, rng.choice(levels), rng.choice(dims)]
@@ -525,6 +525,11 @@ def directed_histories(cfg):
                    ['store', [1000999, 10000, 22, d]], ['store', [999, 1000999, 22, d]],
                    ['store', [10000, 9999, 22, d]], ['store', [9999, 10000, 22, d]],
                    ['remove', [1000, 999, 12, d]], ['cached', [999, 1000, 12, d]]])
+        hs.append([['store', [1001, 5, 12, d]], ['store', [1101, 5, 12, d]], ['store', [1011, 5, 12, d]],
+                   ['store', [5, 1001, 12, d]], ['store', [5, 1101, 12, d]], ['store', [5, 2001, 12, d]],
+                   ['store', [10001, 20001, 16, d]], ['store', [20001, 10001, 16, d]], ['store', [1, 10001, 16, d]],
+                   ['store', [1000001, 1, 22, d]], ['store', [1, 1000001, 22, d]], ['store', [1001001, 1, 22, d]],
+                   ['remove', [1101, 5, 12, d]], ['load', [1001, 5, 12, d], False]])
     return hs
 
 
